@@ -127,6 +127,17 @@ theorem verbose_same_language (cfg : Config) (hp : PlainPrintCI cfg) (env : Env)
       Spec.fullMatch cfg.ci PV s = Spec.fullMatch cfg.ci P0 s :=
   Grexv.verbose_same_language cfg hp env ws stV st0 hV h0 hseg hne s hs
 
+/-- **C06 (verbose mode with both anchors disabled as well)** whichever expression the self-check keeps, the verbose text is
+accepted under `(?x)`, matches in full nothing but (generalised) test cases and matches every non-empty one -/
+theorem verbose_bounds_any_anchor (cfg : Config) (hp : VerbosePrintNA cfg) (env : Env) (ws : List Str) (st : Stages)
+    (h : regExpFrom cfg env ws = .ok st) (hseg : ∀ w ∈ storedCases cfg env ws, SegOK env w)
+    (hne : ∃ t ∈ storedCases cfg env ws, t ≠ []) (s : Str) (hs : ∀ c ∈ s, Scalar c) :
+    ∃ P, Spec.parse (fmtRegExp cfg st.finalAst) = some (⟨cfg.ci, true⟩, P) ∧
+      (Spec.fullMatch cfg.ci P s = true → ∃ t ∈ storedCases cfg env ws, atomsDen cfg.ci (t.map (convAtom cfg)) s) ∧
+      (∀ t ∈ storedCases cfg env ws, t ≠ [] → atomsDen cfg.ci (t.map (convAtom cfg)) s →
+        Spec.fullMatch cfg.ci P s = true) :=
+  classes_bounds_verbose cfg hp env ws st h hseg hne s hs
+
 /-- **C06 (the verbose output carries its flag and stays valid under it)** for every well-formed expression the verbose
 text parses with the flags `x` and, if requested, `i`, to the very pattern the non-verbose text parses to -/
 theorem verbose_parses_to_same_pattern (cap esc i ns ne : Bool) (e : Expr) (hwf : e.WF) :
